@@ -208,9 +208,27 @@ func c20APIEditOrder(r *fw.Rec) {
 			m.MetadataDefs = append(m.MetadataDefs, def)
 			m.NamedMetadataDefs["named"].Nodes = append(m.NamedMetadataDefs["named"].Nodes, def)
 		}
-		ag := &ir.AttrGroupDef{ID: int64(rng.Intn(ids[len(ids)-1] + 3)), FuncAttrs: []ir.FuncAttribute{enum.FuncAttrNoReturn}}
-		m.AttrGroupDefs = append(m.AttrGroupDefs, ag)
-		m.Funcs[0].FuncAttrs = append(m.Funcs[0].FuncAttrs, ag)
+		// one to four more attribute groups with distinct IDs in PRNG order, one of
+		// them possibly without attributes (not printed) and put in front
+		base := int64(ids[len(ids)-1] + 3)
+		agIDs := rng.Perm(int(base) + 6)
+		nag := 1 + rng.Intn(4)
+		var ag *ir.AttrGroupDef
+		for k := 0; k < nag; k++ {
+			id := int64(agIDs[k])
+			if id == base {
+				id = base + 7
+			}
+			g := &ir.AttrGroupDef{ID: id, FuncAttrs: []ir.FuncAttribute{enum.FuncAttrNoReturn}}
+			if k == 1 && rng.Intn(2) == 0 {
+				g.FuncAttrs = nil
+				m.AttrGroupDefs = append([]*ir.AttrGroupDef{g}, m.AttrGroupDefs...)
+			} else {
+				m.AttrGroupDefs = append(m.AttrGroupDefs, g)
+			}
+			m.Funcs[0].FuncAttrs = append(m.Funcs[0].FuncAttrs, g)
+			ag = g
+		}
 		r.Eval(1)
 		y, pp := printGuard(m)
 		if pp != "" {
@@ -222,7 +240,7 @@ func c20APIEditOrder(r *fw.Rec) {
 			return
 		}
 		if key, what := c20PrintedOrder(y); key != "" {
-			r.Violate(fw.Violation{Key: "api-edit/" + key, Input: x, What: "after appending definitions through the API (" + strconv.Itoa(nNew) + " metadata definitions without ID, attribute group #" + strconv.FormatInt(ag.ID, 10) + "): " + what, Observed: y})
+			r.Violate(fw.Violation{Key: "api-edit/" + key, Input: x, What: "after appending definitions through the API (" + strconv.Itoa(nNew) + " metadata definitions without ID, " + strconv.Itoa(nag) + " attribute groups, the last one #" + strconv.FormatInt(ag.ID, 10) + "): " + what, Observed: y})
 			return
 		}
 		r.Nontrivial(y)
